@@ -9,8 +9,9 @@
 import GocoinV.Proofs.C11
 import GocoinV.Proofs.C11Live
 import GocoinV.Proofs.C11Fan
+import GocoinV.Proofs.C11Own
 namespace GocoinV.Props.C11
-open GocoinV.Conc GocoinV.ConcEv GocoinV.Proofs.C11
+open GocoinV.Conc GocoinV.ConcEv GocoinV.Proofs.C11 GocoinV.Proofs.C11Own
 
 /-- Every shared variable of the policy table (functions (a)–(f)) is, in the synchronisation sequence extracted
     from the CURRENT source, accessed inside the critical section of its mutex, or only by the spawning goroutine,
@@ -221,5 +222,67 @@ example : ([3, 4] : List Nat).Perm [4, 3] := List.Perm.swap _ _ _
 theorem cache_compute_once (v : Nat) (c : Option Nat) :
     (cacheStep v (cacheStep v c).1).1 = (cacheStep v c).1 ∧ (cacheStep v (cacheStep v c).1).2 = (cacheStep v c).2 :=
   GocoinV.Proofs.C11.cache_once v c
+
+/-! ## ownership of memory handed to another goroutine (Model/ConcOwn.lean) -/
+
+/-- The ownership facts hold of the CURRENT source (regenerated by gen_c11, own.go): no goroutine is started while its spawner
+    still writes a field of the same object that the goroutine reads (the script workers of commitTxs read `Tx.Spent_outputs`,
+    which is complete before the first of them starts); every chunk buffer UnspentDB.save sends to the file goroutine is given
+    up for a freshly allocated one (or comes from a pool of at least capacity + 2 buffers); no slice of a stored UTXO record's
+    memory is stored into the change set (undo data, add list) that commitTxs hands to CommitBlockTxs. -/
+theorem source_ownership_facts : Own.ownFacts = Own.ownFactsOK := by decide +kernel
+
+/-- (g) chunk buffers: with a fresh buffer per chunk (`n = 0`), or a ring of `n ≥ cap + 1` buffers where the serialiser checks
+    for room in the channel before every write into its current buffer (as save() does), under EVERY schedule of serialiser and
+    file goroutine no buffer is written while its chunk is in flight, every chunk reaches the file intact, in order. -/
+theorem chunk_buffers_not_rewritten_in_flight (n cap total : Nat) (h : n = 0 ∨ cap + 1 ≤ n) (ls : List Own.Ring.Lab) :
+    (Own.Ring.run (Own.Ring.init n cap total) ls).dirty = [] ∧
+    (Own.Ring.run (Own.Ring.init n cap total) ls).written.all (·.2) = true ∧
+    (Own.Ring.run (Own.Ring.init n cap total) ls).written.map (·.1) = List.range (Own.Ring.run (Own.Ring.init n cap total) ls).flushed :=
+  let i := RingP.inv_run _ ls h (RingP.inv_init n cap total)
+  ⟨i.clean, i.ok, i.order⟩
+
+example : (Own.Ring.run (Own.Ring.init 0 1 2) [.fill, .send, .recv, .fill, .send, .flush, .recv, .flush]).written = [(0, true), (1, true)] := by decide
+
+/-- (g) the bound is tight: with as many buffers as the channel has slots (the "obvious" pool size) there is a schedule in
+    which the serialiser refills the buffer whose chunk the file goroutine is still writing — the file gets a damaged chunk. -/
+theorem chunk_pool_of_capacity_counterexample :
+    (Own.Ring.run (Own.Ring.init 2 2 4) [.fill, .send, .fill, .send, .recv, .fill, .flush]).written = [(0, false)] := by decide
+
+/-- (h) undo data: if every undo entry OWNS a copy of the spent script, the undo file is the list of spent scripts under every
+    interleaving of the undo writer with the delete workers (which free the spent records) and the insert workers (which reuse
+    the freed slots) — whatever the allocator does with the memory. -/
+theorem undo_copies_schedule_independent (vs : List Nat) (mem dels adds : List Nat) (ls : List Own.Undo.Lab)
+    (hdone : (Own.Undo.run { mem := mem, dels := dels, adds := adds, todo := vs.map .copy } ls).todo = []) :
+    (Own.Undo.run { mem := mem, dels := dels, adds := adds, todo := vs.map .copy } ls).out = vs := by
+  have i := UndoP.inv_run vs { mem := mem, dels := dels, adds := adds, todo := vs.map .copy } ls
+    ⟨by simp [List.filterMap_map, Function.comp_def, UndoP.val], by
+      intro e he
+      simp only [List.mem_map] at he
+      obtain ⟨v, _, rfl⟩ := he
+      exact ⟨v, rfl⟩⟩
+  have := i.1
+  rw [hdone] at this
+  simpa using this
+
+example : (Own.Undo.run { mem := [7, 8], dels := [0, 1], adds := [5], todo := [.copy 7, .copy 8] } [.del, .add, .ser, .del, .ser]).todo = [] := by decide
+
+/-- (h) an undo entry that ALIASES the record's memory makes the undo file depend on the schedule: serialised before the slot
+    is freed and reused it holds the spent script, afterwards the script of a record created by the same block. -/
+theorem undo_alias_counterexample :
+    (Own.Undo.run { mem := [7], dels := [0], adds := [5], todo := [.alias 0] } [.ser, .del, .add]).out = [7] ∧
+    (Own.Undo.run { mem := [7], dels := [0], adds := [5], todo := [.alias 0] } [.del, .add, .ser]).out = [5] := by decide
+
+/-- (i) start order: when the script workers of a transaction are started after ALL its spent outputs are resolved, every
+    worker finds the complete array under every schedule. -/
+theorem workers_see_complete_inputs (nin : Nat) (ls : List Own.Collect.Lab) (v : Nat × Nat)
+    (hv : v ∈ (Own.Collect.run (Own.Collect.init nin false) ls).views) : v.2 = nin :=
+  (CollectP.inv_run nin _ ls ⟨rfl, rfl, Nat.zero_le _, fun h => absurd h (Nat.lt_irrefl 0), fun _ h => by simp [Own.Collect.init] at h⟩).2.2.2.2 v hv
+
+example : (Own.Collect.run (Own.Collect.init 2 false) [.main, .main, .main, .worker 0]).views = [(0, 2)] := by decide
+
+/-- (i) started as soon as its own input is resolved, a worker can read the array while later entries are still missing. -/
+theorem early_spawn_counterexample :
+    (Own.Collect.run (Own.Collect.init 2 true) [.main, .worker 0, .main]).views = [(0, 1)] := by decide
 
 end GocoinV.Props.C11
